@@ -11,6 +11,7 @@
 """
 import json, os, sys, time
 from . import vcore as V
+from . import xcheck
 
 
 def run_property(mod, tier, seed, replay=None):
@@ -80,6 +81,12 @@ def run_property(mod, tier, seed, replay=None):
             cases = corpus + cases
             info = dict(info, corpus_cases=len(corpus))
     model = V.run_driver(drv, cases) if (drv and cases) else [None] * len(cases)
+    # the same model answers evaluated inside Coq for a sample of the cases (cross-check of extraction and of the OCaml glue)
+    xc = {"evaluated": 0, "ok": True, "ops": {}}
+    if drv and cases and not replay:
+        xc = xcheck.run(prop, cases, model)
+        if not xc["ok"]:
+            unproved.append({"what": "extraction-cross-check", "file": xc.get("file"), "detail": xc["detail"]})
     evaluations = 0
     nontriv = set()
     disagreements = []
@@ -177,6 +184,7 @@ def run_property(mod, tier, seed, replay=None):
             "rule": getattr(mod, "RULE", ""), "samples": samples,
             "traces_validated_against_impl": validated,
             "correspondence_disagreements": len(disagreements),
+            "model_answers_reevaluated_in_coq": {"cases": xc["evaluated"], "agree": bool(xc["ok"]), "ops": xc.get("ops", {})},
             "configs": list(exes.keys()), "input_distribution": info,
             "extra": {k: v for k, v in extra_stats.items() if k not in ("nontrivial_keys", "samples")},
             "unproved": unproved,
